@@ -520,7 +520,8 @@ class C2Profile(ConfigBlock):
                     elif v is True:
                         block_steps[_build].append(k.lower())
                     else:
-                        block_steps[_build].append((k.lower(), v.decode("latin-1")))
+                        # bytes are escaped by value_to_string()
+                        block_steps[_build].append((k.lower(), v))
                 logger.debug(f"block_steps: {block_steps}")
                 if headers:
                     http_get_client._pair("header", headers)
@@ -549,8 +550,7 @@ class C2Profile(ConfigBlock):
                     elif v is True:
                         block_steps[_build].append(k.lower())
                     else:
-                        # log.debug(f"{k} -> {v}")
-                        v = repr(v)[2:-1]
+                        # bytes are escaped by value_to_string()
                         block_steps[_build].append((k.lower(), v))
                 logger.debug(f"block_steps: {block_steps}")
                 if headers:
